@@ -405,7 +405,14 @@ func init() {
 				s.N = d.Pick(3000, 30000)
 				specs = append(specs, s)
 			}
-			d.RunWorkers(specs, 16)
+			for i := 0; i < int(d.Pick(1, 4)); i++ {
+				s := d.NewSpec("cfg", fmt.Sprintf("cfg-race-%d", i), 200+i, 16)
+				s.N = d.Pick(60, 1500)
+				s.Flavour = "race"
+				specs = append(specs, s)
+			}
+			outs := d.RunWorkers(specs, 16)
+			d.raceVerdict(outs)
 		},
 	})
 }
